@@ -9,7 +9,7 @@ NEED = {
  "C19": ["faults_fired.eio", "faults_fired.enoent", "faults_fired.short_read", "faults_fired.empty_read", "faults_fired.refused_unknown_file",
          "faults_fired.eio_in_pipeline", "faults_fired.short_in_pipeline", "faults_fired.edited_in_pipeline",
          "probes.caret_checked.long-line-head", "probes.caret_checked.long-line-middle", "probes.caret_checked.long-line-tail", "probes.caret_checked.long-line-near-limit",
-         "probes.caret_checked_after_tab", "probes.caret_checked_after_multibyte", "probes.report_served_from_cache", "probes.message_shows_older_served_version",
+         "probes.caret_checked_after_tab", "probes.caret_checked_after_multibyte", "probes.report_served_from_cache", "probes.compared_with_fresh_reporter",
          "probes.excerpt_after_transient_fault", "probes.no_excerpt_after_failed_read", "probes.short_file_no_excerpt", "pipeline_leg.diagnostics_judged"],
  "C16": ["operations.add", "operations.global", "start_states.nil", "start_states.zero-after-global-nil", "order_permutation_replays", "concurrent_phases",
          "probes.readers_interleaved_inside_Contains", "queries_expected_suppressed", "distinct_small_scope_histories", "race_oracle_runs"],
